@@ -1,5 +1,6 @@
 // Replay tool: runs witnesses against the REAL rbpf crate at /repo.
 //   replay finding <id>      -> prints REPRODUCED / NOT-REPRODUCED <what>
+mod asmtable;
 mod findings;
 
 fn main() {
@@ -15,6 +16,10 @@ fn main() {
         }
         return;
     }
-    eprintln!("usage: replay finding <id>");
+    if args.len() >= 2 && args[1] == "asm-table" {
+        let ok = asmtable::run();
+        std::process::exit(if ok { 0 } else { 1 });
+    }
+    eprintln!("usage: replay finding <id> | asm-table");
     std::process::exit(2);
 }
